@@ -751,7 +751,11 @@ func liqDrive(t *testing.T, mode string) {
 		for _, app := range w.apps {
 			for _, p := range w.pairs[app] {
 				ref := w.refP[fmt.Sprintf("%d:%d", app, p.Id)]
-				if g.chance(map[bool]int{true: 85, false: 40}[c04]) {
+				poolPct := map[bool]int{true: 85, false: 40}[c04]
+				if mode == "C05" {
+					poolPct = 15 // a pool puts hundreds of orders on the book; the keeper-level C05 replay is about user orders
+				}
+				if g.chance(poolPct) {
 					y := sdk.NewInt(int64(1000000 + g.intn(50000000)))
 					x := ref.MulInt(y).TruncateInt()
 					w.opCreatePool(app, 90, p.Id, x, y)
